@@ -1,5 +1,5 @@
 (* The method bodies the proofs of Proofs/PrimOpsP.v are about: a pinned copy of the DISTINCT rows of the regenerated
-   table Generated/PrimOps.v -- (class, method, protocols whose struct has this body, body, tail value) -- written
+   table Generated/PrimOps.v -- (class, method, protocols whose struct has this body, flavours, body, tail value) -- written
    (bootstrapped from the translator's output, then maintained) by hand.  [table_known] (Proofs/PrimOpsP.v) checks by
    computation that every regenerated row is one of these; [known_sound] proves, entry by entry and for ALL arguments,
    contexts and buffer kinds, that the body denotes the primitive of Proto.v / Len.v.  When a method body changes in
@@ -10,314 +10,536 @@ Import ListNotations.
 Open Scope string_scope.
 Open Scope Z_scope.
 
-Definition kentry : Type := (string * string * list string * list stmt * option expr)%type.
+Definition kentry : Type := (string * string * list string * list string * list stmt * option expr)%type.
 
 Definition known : list kentry :=
   [
-  ("len", "message_begin_len", ["binary"; "binary_le"],
+  ("len", "message_begin_len", ["binary"; "binary_le"], ["any"],
      [],
      Some (EBin "+" (EBin "+" (ECallLen "i32_len" [EK 0]) (ECallLen "faststr_len" [EVar "identifier.name"])) (ECallLen "i32_len" [EK 0])));
-  ("len", "message_end_len", ["binary"; "binary_le"],
+  ("len", "message_end_len", ["binary"; "binary_le"], ["any"],
      [],
      Some (EK 0));
-  ("len", "struct_begin_len", ["binary"; "binary_le"],
+  ("len", "struct_begin_len", ["binary"; "binary_le"], ["any"],
      [],
      Some (EK 0));
-  ("len", "struct_end_len", ["binary"; "binary_le"],
+  ("len", "struct_end_len", ["binary"; "binary_le"], ["any"],
      [],
      Some (EK 0));
-  ("len", "field_begin_len", ["binary"; "binary_le"],
+  ("len", "field_begin_len", ["binary"; "binary_le"], ["any"],
      [],
      Some (EBin "+" (ECallLen "byte_len" [EK 0]) (ECallLen "i16_len" [EK 0])));
-  ("len", "field_end_len", ["binary"; "binary_le"],
+  ("len", "field_end_len", ["binary"; "binary_le"], ["any"],
      [],
      Some (EK 0));
-  ("len", "field_stop_len", ["binary"; "binary_le"],
+  ("len", "field_stop_len", ["binary"; "binary_le"], ["any"],
      [],
      Some (ECallLen "byte_len" [EK 0]));
-  ("len", "bool_len", ["binary"; "binary_le"],
+  ("len", "bool_len", ["binary"; "binary_le"], ["any"],
      [],
      Some (ECallLen "i8_len" [EK 0]));
-  ("len", "bytes_len", ["binary"; "binary_le"],
+  ("len", "bytes_len", ["binary"; "binary_le"], ["any"],
      [],
      Some (EBin "+" (ECallLen "i32_len" [EK 0]) (ELen (EVar "b"))));
-  ("len", "byte_len", ["binary"; "binary_le"; "compact"],
+  ("len", "byte_len", ["binary"; "binary_le"; "compact"], ["any"],
      [],
      Some (EK 1));
-  ("len", "uuid_len", ["binary"; "binary_le"; "compact"],
+  ("len", "uuid_len", ["binary"; "binary_le"; "compact"], ["any"],
      [],
      Some (EK 16));
-  ("len", "i8_len", ["binary"; "binary_le"; "compact"],
+  ("len", "i8_len", ["binary"; "binary_le"; "compact"], ["any"],
      [],
      Some (EK 1));
-  ("len", "i16_len", ["binary"; "binary_le"],
+  ("len", "i16_len", ["binary"; "binary_le"], ["any"],
      [],
      Some (EK 2));
-  ("len", "i32_len", ["binary"; "binary_le"],
+  ("len", "i32_len", ["binary"; "binary_le"], ["any"],
      [],
      Some (EK 4));
-  ("len", "i64_len", ["binary"; "binary_le"],
+  ("len", "i64_len", ["binary"; "binary_le"], ["any"],
      [],
      Some (EK 8));
-  ("len", "double_len", ["binary"; "binary_le"],
+  ("len", "double_len", ["binary"; "binary_le"], ["any"],
      [],
      Some (EK 8));
-  ("len", "string_len", ["binary"; "binary_le"],
+  ("len", "string_len", ["binary"; "binary_le"], ["any"],
      [],
      Some (EBin "+" (ECallLen "i32_len" [EK 0]) (ELen (EVar "s"))));
-  ("len", "faststr_len", ["binary"; "binary_le"],
+  ("len", "faststr_len", ["binary"; "binary_le"], ["any"],
      [],
      Some (EBin "+" (ECallLen "i32_len" [EK 0]) (ELen (EVar "s"))));
-  ("len", "list_begin_len", ["binary"; "binary_le"],
+  ("len", "list_begin_len", ["binary"; "binary_le"], ["any"],
      [],
      Some (EBin "+" (ECallLen "byte_len" [EK 0]) (ECallLen "i32_len" [EK 0])));
-  ("len", "list_end_len", ["binary"; "binary_le"; "compact"],
+  ("len", "list_end_len", ["binary"; "binary_le"; "compact"], ["any"],
      [],
      Some (EK 0));
-  ("len", "set_begin_len", ["binary"; "binary_le"],
+  ("len", "set_begin_len", ["binary"; "binary_le"], ["any"],
      [],
      Some (EBin "+" (ECallLen "byte_len" [EK 0]) (ECallLen "i32_len" [EK 0])));
-  ("len", "set_end_len", ["binary"; "binary_le"; "compact"],
+  ("len", "set_end_len", ["binary"; "binary_le"; "compact"], ["any"],
      [],
      Some (EK 0));
-  ("len", "map_begin_len", ["binary"; "binary_le"],
+  ("len", "map_begin_len", ["binary"; "binary_le"], ["any"],
      [],
      Some (EBin "+" (EBin "+" (ECallLen "byte_len" [EK 0]) (ECallLen "byte_len" [EK 0])) (ECallLen "i32_len" [EK 0])));
-  ("len", "map_end_len", ["binary"; "binary_le"; "compact"],
+  ("len", "map_end_len", ["binary"; "binary_le"; "compact"], ["any"],
      [],
      Some (EK 0));
-  ("len", "bytes_vec_len", ["binary"; "binary_le"],
+  ("len", "bytes_vec_len", ["binary"; "binary_le"], ["any"],
      [],
      Some (EBin "+" (ECallLen "i32_len" [EK 0]) (ELen (EVar "b"))));
-  ("write", "write_message_begin", ["binary"],
+  ("write", "write_message_begin", ["binary"], ["bytesmut"; "linked"],
      [SLet "msg_type_u8" (ECast "into" (EVar "identifier.message_type")); SLet "version" (ECast "i32" (EBin "|" (ENamed "VERSION_1") (ECast "u32" (EVar "msg_type_u8")))); SCall "write_i32" [EVar "version"]; SCall "write_faststr" [EVar "identifier.name"]; SCall "write_i32" [EVar "identifier.sequence_number"]],
      None);
-  ("write", "write_message_end", ["binary"; "binary_le"],
+  ("write", "write_message_end", ["binary"; "binary_le"], ["bytesmut"; "linked"],
      [],
      None);
-  ("write", "write_struct_begin", ["binary"; "binary_le"],
+  ("write", "write_struct_begin", ["binary"; "binary_le"], ["bytesmut"; "linked"],
      [],
      None);
-  ("write", "write_struct_end", ["binary"; "binary_le"],
+  ("write", "write_struct_end", ["binary"; "binary_le"], ["bytesmut"; "linked"],
      [],
      None);
-  ("write", "write_field_begin", ["binary"],
+  ("write", "write_field_begin", ["binary"], ["bytesmut"; "linked"],
      [SPutArr [ECast "u8" (EVar "field_type"); EByteOf "be" 2 0 (EVar "id"); EByteOf "be" 2 1 (EVar "id")]],
      None);
-  ("write", "write_field_end", ["binary"; "binary_le"],
+  ("write", "write_field_end", ["binary"; "binary_le"], ["bytesmut"; "linked"],
      [],
      None);
-  ("write", "write_field_stop", ["binary"; "binary_le"],
+  ("write", "write_field_stop", ["binary"; "binary_le"], ["bytesmut"; "linked"],
      [SCall "write_byte" [ECast "u8" (ENamed "TType::Stop")]],
      None);
-  ("write", "write_bool", ["binary"; "binary_le"],
+  ("write", "write_bool", ["binary"; "binary_le"], ["bytesmut"; "linked"],
      [SIf (EVar "b") [SCall "write_i8" [EK 1]] [SCall "write_i8" [EK 0]]],
      None);
-  ("write", "write_bytes", ["binary"; "binary_le"],
+  ("write", "write_bytes", ["binary"; "binary_le"], ["bytesmut"; "linked"],
      [SCall "write_i32" [ECast "i32" (ELen (EVar "b"))]; SCall "write_bytes_without_len" [EVar "b"]],
      None);
-  ("write", "write_bytes_without_len", ["binary"; "binary_le"; "compact"],
+  ("write", "write_bytes_without_len", ["binary"; "binary_le"; "compact"], ["bytesmut"],
      [SPut "slice" (EVar "b")],
      None);
-  ("write", "write_byte", ["binary"; "binary_le"; "compact"],
+  ("write", "write_byte", ["binary"; "binary_le"; "compact"], ["bytesmut"; "linked"],
      [SPut "u8" (EVar "b")],
      None);
-  ("write", "write_uuid", ["binary"; "binary_le"; "compact"],
+  ("write", "write_uuid", ["binary"; "binary_le"; "compact"], ["bytesmut"; "linked"],
      [SPut "slice" (EVar "u")],
      None);
-  ("write", "write_i8", ["binary"; "binary_le"; "compact"],
+  ("write", "write_i8", ["binary"; "binary_le"; "compact"], ["bytesmut"; "linked"],
      [SPut "i8" (EVar "i")],
      None);
-  ("write", "write_i16", ["binary"],
+  ("write", "write_i16", ["binary"], ["bytesmut"; "linked"],
      [SPut "i16" (EVar "i")],
      None);
-  ("write", "write_i32", ["binary"],
+  ("write", "write_i32", ["binary"], ["bytesmut"; "linked"],
      [SPut "i32" (EVar "i")],
      None);
-  ("write", "write_i64", ["binary"],
+  ("write", "write_i64", ["binary"], ["bytesmut"; "linked"],
      [SPut "i64" (EVar "i")],
      None);
-  ("write", "write_double", ["binary"],
+  ("write", "write_double", ["binary"], ["bytesmut"; "linked"],
      [SPut "f64" (EVar "d")],
      None);
-  ("write", "write_string", ["binary"; "binary_le"],
+  ("write", "write_string", ["binary"; "binary_le"], ["bytesmut"; "linked"],
      [SCall "write_i32" [ECast "i32" (ELen (EVar "s"))]; SPut "slice" (EVar "s")],
      None);
-  ("write", "write_faststr", ["binary"; "binary_le"],
+  ("write", "write_faststr", ["binary"; "binary_le"], ["bytesmut"],
      [SCall "write_i32" [ECast "i32" (ELen (EVar "s"))]; SPut "slice" (EVar "s")],
      None);
-  ("write", "write_list_begin", ["binary"; "binary_le"],
+  ("write", "write_list_begin", ["binary"; "binary_le"], ["bytesmut"; "linked"],
      [SCall "write_byte" [ECast "into" (EVar "identifier.element_type")]; SCall "write_i32" [ECast "i32" (EVar "identifier.size")]],
      None);
-  ("write", "write_list_end", ["binary"; "binary_le"; "compact"],
+  ("write", "write_list_end", ["binary"; "binary_le"; "compact"], ["bytesmut"; "linked"],
      [],
      None);
-  ("write", "write_set_begin", ["binary"; "binary_le"],
+  ("write", "write_set_begin", ["binary"; "binary_le"], ["bytesmut"; "linked"],
      [SCall "write_byte" [ECast "into" (EVar "identifier.element_type")]; SCall "write_i32" [ECast "i32" (EVar "identifier.size")]],
      None);
-  ("write", "write_set_end", ["binary"; "binary_le"; "compact"],
+  ("write", "write_set_end", ["binary"; "binary_le"; "compact"], ["bytesmut"; "linked"],
      [],
      None);
-  ("write", "write_map_begin", ["binary"; "binary_le"],
+  ("write", "write_map_begin", ["binary"; "binary_le"], ["bytesmut"; "linked"],
      [SLet "key_type" (EVar "identifier.key_type"); SCall "write_byte" [ECast "into" (EVar "key_type")]; SLet "val_type" (EVar "identifier.value_type"); SCall "write_byte" [ECast "into" (EVar "val_type")]; SCall "write_i32" [ECast "i32" (EVar "identifier.size")]],
      None);
-  ("write", "write_map_end", ["binary"; "binary_le"; "compact"],
+  ("write", "write_map_end", ["binary"; "binary_le"; "compact"], ["bytesmut"; "linked"],
      [],
      None);
-  ("write", "write_bytes_vec", ["binary"; "binary_le"],
+  ("write", "write_bytes_vec", ["binary"; "binary_le"], ["bytesmut"; "linked"],
      [SCall "write_i32" [ECast "i32" (ELen (EVar "b"))]; SPut "slice" (EVar "b")],
      None);
-  ("write", "write_bytes_without_len", ["binary"; "binary_le"; "compact"],
+  ("write", "write_bytes_without_len", ["binary"; "binary_le"; "compact"], ["linked"],
      [SIf (EBin "&&" (ESelf "zero_copy") (EBin ">=" (ELen (EVar "b")) (ENamed "ZERO_COPY_THRESHOLD"))) [SAdd "zero_copy_len" (ELen (EVar "b")); SInsert (EVar "b"); SReturnOk] []; SPut "slice" (EVar "b")],
      None);
-  ("write", "write_faststr", ["binary"; "binary_le"],
+  ("write", "write_faststr", ["binary"; "binary_le"], ["linked"],
      [SCall "write_i32" [ECast "i32" (ELen (EVar "s"))]; SIf (EBin "&&" (ESelf "zero_copy") (EBin ">=" (ELen (EVar "s")) (ENamed "ZERO_COPY_THRESHOLD"))) [SAdd "zero_copy_len" (ELen (EVar "s")); SInsert (EVar "s"); SReturnOk] []; SPut "slice" (EVar "s")],
      None);
-  ("write", "write_message_begin", ["binary_le"],
+  ("write", "write_message_begin", ["binary_le"], ["bytesmut"; "linked"],
      [SLet "msg_type_u8" (ECast "into" (EVar "identifier.message_type")); SLet "version" (ECast "i32" (EBin "|" (ENamed "VERSION_LE") (ECast "u32" (EVar "msg_type_u8")))); SCall "write_i32" [EVar "version"]; SCall "write_faststr" [EVar "identifier.name"]; SCall "write_i32" [EVar "identifier.sequence_number"]],
      None);
-  ("write", "write_field_begin", ["binary_le"],
+  ("write", "write_field_begin", ["binary_le"], ["bytesmut"; "linked"],
      [SPutArr [ECast "u8" (EVar "field_type"); EByteOf "le" 2 0 (EVar "id"); EByteOf "le" 2 1 (EVar "id")]],
      None);
-  ("write", "write_i16", ["binary_le"],
+  ("write", "write_i16", ["binary_le"], ["bytesmut"; "linked"],
      [SPut "i16_le" (EVar "i")],
      None);
-  ("write", "write_i32", ["binary_le"],
+  ("write", "write_i32", ["binary_le"], ["bytesmut"; "linked"],
      [SPut "i32_le" (EVar "i")],
      None);
-  ("write", "write_i64", ["binary_le"],
+  ("write", "write_i64", ["binary_le"], ["bytesmut"; "linked"],
      [SPut "i64_le" (EVar "i")],
      None);
-  ("write", "write_double", ["binary_le"; "compact"],
+  ("write", "write_double", ["binary_le"; "compact"], ["bytesmut"; "linked"],
      [SPut "f64_le" (EVar "d")],
      None);
-  ("len", "message_begin_len", ["compact"],
+  ("len", "message_begin_len", ["compact"], ["any"],
      [],
      Some (EBin "+" (EBin "+" (EK 2) (EReqSpace (ECast "u32" (EVar "ident.sequence_number")))) (ECallLen "faststr_len" [EVar "ident.name"])));
-  ("len", "message_end_len", ["compact"],
+  ("len", "message_end_len", ["compact"], ["any"],
      [SAssertNoPending],
      Some (EK 0));
-  ("len", "struct_begin_len", ["compact"],
+  ("len", "struct_begin_len", ["compact"], ["any"],
      [SPushLast; SSet "last_write_field_id" (EK 0)],
      Some (EK 0));
-  ("len", "struct_end_len", ["compact"],
+  ("len", "struct_end_len", ["compact"], ["any"],
      [SAssertNoPending; SPopLastUnwrap],
      Some (EK 0));
-  ("len", "field_begin_len", ["compact"],
+  ("len", "field_begin_len", ["compact"], ["any"],
      [SIfV (EBin "==" (EVar "field_type") (ENamed "TType::Bool")) [SIf (EIsSome (ESelf "pending_write_bool_field_identifier")) [SPanic] []; SSetPendingOpt (EVar "id")] (EK 0) [SLet "tc_field_type" (ECompactU (EVar "field_type")); SLet "ax" (EK 0); SHeaderLen "ax" (EVar "tc_field_type") (EUnwrap (EVar "id"))] (EVar "ax")],
      Some (EVar "$match"));
-  ("len", "field_end_len", ["compact"],
+  ("len", "field_end_len", ["compact"], ["any"],
      [SAssertNoPending],
      Some (EK 0));
-  ("len", "field_stop_len", ["compact"],
+  ("len", "field_stop_len", ["compact"], ["any"],
      [SAssertNoPending],
      Some (ECallLen "byte_len" [ECast "u8" (ENamed "TType::Stop")]));
-  ("len", "bool_len", ["compact"],
+  ("len", "bool_len", ["compact"], ["any"],
      [STakePendingV "pending" [SLet "field_id" (EUnwrap (EVar "pending.id")); SLet "tc_field_type" (EIfE (EVar "b") (ENamed "TCompactType::BooleanTrue") (ENamed "TCompactType::BooleanFalse")); SLet "ax" (EK 0); SHeaderLen "ax" (EVar "tc_field_type") (EVar "field_id")] (EVar "ax") [] (ECallLen "byte_len" [EIfE (EVar "b") (ECast "u8" (ENamed "TCompactType::BooleanTrue")) (ECast "u8" (ENamed "TCompactType::BooleanFalse"))])],
      Some (EVar "$match"));
-  ("len", "bytes_len", ["compact"],
+  ("len", "bytes_len", ["compact"], ["any"],
      [],
      Some (EBin "+" (EReqSpace (ECast "u32" (ELen (EVar "b")))) (ELen (EVar "b"))));
-  ("len", "i16_len", ["compact"],
+  ("len", "i16_len", ["compact"], ["any"],
      [],
      Some (EReqSpace (ETyped "i16" (EVar "i"))));
-  ("len", "i32_len", ["compact"],
+  ("len", "i32_len", ["compact"], ["any"],
      [],
      Some (EReqSpace (ETyped "i32" (EVar "i"))));
-  ("len", "i64_len", ["compact"],
+  ("len", "i64_len", ["compact"], ["any"],
      [],
      Some (EReqSpace (ETyped "i64" (EVar "i"))));
-  ("len", "double_len", ["compact"],
+  ("len", "double_len", ["compact"], ["any"],
      [],
      Some (ELen (EBytes "le" 8 (EVar "d"))));
-  ("len", "string_len", ["compact"],
+  ("len", "string_len", ["compact"], ["any"],
      [],
      Some (EBin "+" (EReqSpace (ECast "u32" (ELen (EVar "s")))) (ELen (EVar "s"))));
-  ("len", "faststr_len", ["compact"],
+  ("len", "faststr_len", ["compact"], ["any"],
      [],
      Some (EBin "+" (EReqSpace (ECast "u32" (ELen (EVar "s")))) (ELen (EVar "s"))));
-  ("len", "list_begin_len", ["compact"],
+  ("len", "list_begin_len", ["compact"], ["any"],
      [],
      Some (EIfE (EBin "<=" (EVar "identifier.size") (EK 14)) (ECallLen "byte_len" [EBin "|" (ECast "u8" (EBin "<<" (ECast "i32" (EVar "identifier.size")) (EK 4))) (ECast "u8" (ECompactU (EVar "identifier.element_type")))]) (EBin "+" (ECallLen "byte_len" [EBin "|" (EK 240) (ECast "u8" (ECompactU (EVar "identifier.element_type")))]) (EReqSpace (ECast "u32" (EVar "identifier.size"))))));
-  ("len", "set_begin_len", ["compact"],
+  ("len", "set_begin_len", ["compact"], ["any"],
      [],
      Some (EIfE (EBin "<=" (EVar "identifier.size") (EK 14)) (ECallLen "byte_len" [EBin "|" (ECast "u8" (EBin "<<" (ECast "i32" (EVar "identifier.size")) (EK 4))) (ECast "u8" (ECompactU (EVar "identifier.element_type")))]) (EBin "+" (ECallLen "byte_len" [EBin "|" (EK 240) (ECast "u8" (ECompactU (EVar "identifier.element_type")))]) (EReqSpace (ECast "u32" (EVar "identifier.size"))))));
-  ("len", "map_begin_len", ["compact"],
+  ("len", "map_begin_len", ["compact"], ["any"],
      [],
      Some (EIfE (EBin "==" (EVar "identifier.size") (EK 0)) (ECallLen "byte_len" [ECast "u8" (ENamed "TType::Stop")]) (EBin "+" (EReqSpace (ECast "u32" (EVar "identifier.size"))) (ECallLen "byte_len" [EBin "|" (EBin "<<" (ECast "u8" (ECompactU (EVar "identifier.key_type"))) (EK 4)) (ECast "u8" (ECompactU (EVar "identifier.value_type")))]))));
-  ("len", "bytes_vec_len", ["compact"],
+  ("len", "bytes_vec_len", ["compact"], ["any"],
      [],
      Some (ECallLen "bytes_len" [EVar "b"]));
-  ("write", "write_varint", ["compact"],
+  ("write", "write_varint", ["compact"], ["bytesmut"; "linked"],
      [SVarint (EVar "n")],
      None);
-  ("write", "write_field_header", ["compact"],
+  ("write", "write_field_header", ["compact"], ["bytesmut"; "linked"],
      [SLet "field_delta" (EBin "-" (ECast "i32" (EVar "id")) (ECast "i32" (ESelf "last_write_field_id"))); SIf (EBin "&&" (EBin ">" (EVar "field_delta") (EK 0)) (EBin "<" (EVar "field_delta") (EK 15))) [SCall "write_byte" [EBin "|" (EBin "<<" (ECast "u8" (EVar "field_delta")) (EK 4)) (ECast "u8" (EVar "field_type"))]] [SCall "write_byte" [ECast "u8" (EVar "field_type")]; SCall "write_i16" [EVar "id"]]; SSet "last_write_field_id" (EVar "id")],
      None);
-  ("write", "write_collection_begin", ["compact"],
+  ("write", "write_collection_begin", ["compact"], ["bytesmut"; "linked"],
      [SIf (EBin "<=" (EVar "size") (EK 14)) [SCall "write_byte" [EBin "|" (ECast "u8" (EBin "<<" (ECast "i32" (EVar "size")) (EK 4))) (ECast "u8" (ECompact (EVar "element_type")))]] [SCall "write_byte" [EBin "|" (EK 240) (ECast "u8" (ECompact (EVar "element_type")))]; SCall "write_varint" [ECast "u32" (EVar "size")]]],
      None);
-  ("write", "write_message_begin", ["compact"],
+  ("write", "write_message_begin", ["compact"], ["bytesmut"; "linked"],
      [SLet "mtype" (ECast "u8" (EVar "identifier.message_type")); SPutArr [ENamed "COMPACT_PROTOCOL_ID"; EBin "|" (EBin "&" (ENamed "COMPACT_VERSION") (ENamed "COMPACT_VERSION_MASK")) (EBin "&" (EBin "<<" (EVar "mtype") (ENamed "COMPACT_TYPE_SHIFT_AMOUNT")) (ENamed "COMPACT_TYPE_MASK"))]; SCall "write_varint" [ECast "u32" (EVar "identifier.sequence_number")]; SCall "write_faststr" [EVar "identifier.name"]],
      None);
-  ("write", "write_message_end", ["compact"],
+  ("write", "write_message_end", ["compact"], ["bytesmut"; "linked"],
      [SAssertNoPending],
      None);
-  ("write", "write_struct_begin", ["compact"],
+  ("write", "write_struct_begin", ["compact"], ["bytesmut"; "linked"],
      [SPushLast; SSet "last_write_field_id" (EK 0)],
      None);
-  ("write", "write_struct_end", ["compact"],
+  ("write", "write_struct_end", ["compact"], ["bytesmut"; "linked"],
      [SAssertNoPending; SPopLast],
      None);
-  ("write", "write_field_begin", ["compact"],
+  ("write", "write_field_begin", ["compact"], ["bytesmut"; "linked"],
      [SIf (EBin "==" (EVar "field_type") (ENamed "TType::Bool")) [SIf (EIsSome (ESelf "pending_write_bool_field_identifier")) [SPanic] []; SSetPending (EVar "id")] [SLet "tc_field_type" (ECompact (EVar "field_type")); SCall "write_field_header" [EVar "tc_field_type"; EVar "id"]]],
      None);
-  ("write", "write_field_end", ["compact"],
+  ("write", "write_field_end", ["compact"], ["bytesmut"; "linked"],
      [SAssertNoPending],
      None);
-  ("write", "write_field_stop", ["compact"],
+  ("write", "write_field_stop", ["compact"], ["bytesmut"; "linked"],
      [SAssertNoPending; SCall "write_byte" [ECast "u8" (ENamed "TType::Stop")]],
      None);
-  ("write", "write_bool", ["compact"],
+  ("write", "write_bool", ["compact"], ["bytesmut"],
      [STakePending "pending" [SLet "field_id" (EUnwrap (EVar "pending.id")); SLet "tc_field_type" (EIfE (EVar "b") (ENamed "TCompactType::BooleanTrue") (ENamed "TCompactType::BooleanFalse")); SCall "write_field_header" [EVar "tc_field_type"; EVar "field_id"]] [SCall "write_byte" [EIfE (EVar "b") (ECast "u8" (ENamed "TCompactType::BooleanTrue")) (ECast "u8" (ENamed "TCompactType::BooleanFalse"))]]],
      None);
-  ("write", "write_bytes", ["compact"],
+  ("write", "write_bytes", ["compact"], ["bytesmut"; "linked"],
      [SCall "write_varint" [ECast "u32" (ELen (EVar "b"))]; SCall "write_bytes_without_len" [EVar "b"]],
      None);
-  ("write", "write_i16", ["compact"],
+  ("write", "write_i16", ["compact"], ["bytesmut"; "linked"],
      [SCall "write_varint" [ETyped "i16" (EVar "i")]],
      None);
-  ("write", "write_i32", ["compact"],
+  ("write", "write_i32", ["compact"], ["bytesmut"; "linked"],
      [SCall "write_varint" [ETyped "i32" (EVar "i")]],
      None);
-  ("write", "write_i64", ["compact"],
+  ("write", "write_i64", ["compact"], ["bytesmut"; "linked"],
      [SCall "write_varint" [ETyped "i64" (EVar "i")]],
      None);
-  ("write", "write_string", ["compact"],
+  ("write", "write_string", ["compact"], ["bytesmut"; "linked"],
      [SCall "write_varint" [ECast "u32" (ELen (EVar "s"))]; SPut "slice" (EVar "s")],
      None);
-  ("write", "write_faststr", ["compact"],
+  ("write", "write_faststr", ["compact"], ["bytesmut"],
      [SCall "write_varint" [ECast "u32" (ELen (EVar "s"))]; SPut "slice" (EVar "s")],
      None);
-  ("write", "write_list_begin", ["compact"],
+  ("write", "write_list_begin", ["compact"], ["bytesmut"; "linked"],
      [SCall "write_collection_begin" [EVar "identifier.element_type"; EVar "identifier.size"]],
      None);
-  ("write", "write_set_begin", ["compact"],
+  ("write", "write_set_begin", ["compact"], ["bytesmut"; "linked"],
      [SCall "write_collection_begin" [EVar "identifier.element_type"; EVar "identifier.size"]],
      None);
-  ("write", "write_map_begin", ["compact"],
+  ("write", "write_map_begin", ["compact"], ["bytesmut"; "linked"],
      [SIf (EBin "==" (EVar "identifier.size") (EK 0)) [SCall "write_byte" [ECast "u8" (ENamed "TType::Stop")]] [SCall "write_varint" [ECast "u32" (EVar "identifier.size")]; SCall "write_byte" [EBin "|" (EBin "<<" (ECast "u8" (ECompact (EVar "identifier.key_type"))) (EK 4)) (ECast "u8" (ECompact (EVar "identifier.value_type")))]]],
      None);
-  ("write", "write_bytes_vec", ["compact"],
+  ("write", "write_bytes_vec", ["compact"], ["bytesmut"; "linked"],
      [SCall "write_varint" [ECast "u32" (ELen (EVar "b"))]; SPut "slice" (EVar "b")],
      None);
-  ("write", "write_bool", ["compact"],
+  ("write", "write_bool", ["compact"], ["linked"],
      [STakePending "pending" [SLet "field_id" (EUnwrap (EVar "pending.id")); SLet "tc_field_type" (EIfE (EVar "b") (ENamed "TCompactType::BooleanTrue") (ENamed "TCompactType::BooleanFalse")); SCall "write_field_header" [EVar "tc_field_type"; EVar "field_id"]] [SIf (EVar "b") [SCall "write_byte" [ECast "u8" (ENamed "TCompactType::BooleanTrue")]] [SCall "write_byte" [ECast "u8" (ENamed "TCompactType::BooleanFalse")]]]],
      None);
-  ("write", "write_faststr", ["compact"],
+  ("write", "write_faststr", ["compact"], ["linked"],
      [SCall "write_varint" [ECast "u32" (ELen (EVar "s"))]; SIf (EBin "&&" (ESelf "zero_copy") (EBin "<=" (ELen (EVar "s")) (ENamed "ZERO_COPY_THRESHOLD"))) [SAdd "zero_copy_len" (ELen (EVar "s")); SInsert (EVar "s"); SReturnOk] []; SPut "slice" (EVar "s")],
      None);
-  ("len", "macro write_field_header_len", ["compact"],
+  ("len", "macro write_field_header_len", ["compact"], ["any"],
      [SLet "field_delta" (EBin "-" (ECast "i32" (EVar "id")) (ECast "i32" (ESelf "last_write_field_id"))); SIf (EBin "&&" (EBin ">" (EVar "field_delta") (EK 0)) (EBin "<" (EVar "field_delta") (EK 15))) [SAddVar "ax" (ECallLen "byte_len" [EK 0])] [SAddVar "ax" (ECallLen "byte_len" [ECast "u8" (EVar "field_type")]); SAddVar "ax" (ECallLen "i16_len" [EVar "id"])]; SSet "last_write_field_id" (EVar "id")],
-     None)
+     None);
+  ("read", "read_message_end", ["binary"; "binary_le"; "compact"], ["sync"],
+     [],
+     None);
+  ("read", "read_struct_begin", ["binary"; "binary_le"], ["sync"],
+     [],
+     Some (EK 0));
+  ("read", "read_struct_end", ["binary"; "binary_le"], ["sync"],
+     [],
+     None);
+  ("read", "read_field_begin", ["binary"; "binary_le"], ["sync"],
+     [SLet "field_type_byte" (ERead "read_byte"); SLet "field_type" (ETryTType (EVar "field_type_byte")); SLet "id" (EIfE (EBin "==" (EVar "field_type") (ENamed "TType::Stop")) (EK 0) (ERead "read_i16"))],
+     Some (ETuple [EVar "field_type"; EVar "id"]));
+  ("read", "read_field_end", ["binary"; "binary_le"; "compact"], ["sync"],
+     [],
+     None);
+  ("read", "read_bool", ["binary"; "binary_le"], ["sync"],
+     [SLet "b" (ERead "read_i8")],
+     Some (EIfE (EBin "==" (EVar "b") (EK 0)) (EK 0) (EK 1)));
+  ("read", "read_bytes", ["binary"], ["sync"],
+     [SLet "len" (EGet "i32")],
+     Some (ESplit "split_to_checked" (ECast "usize" (EVar "len"))));
+  ("read", "read_uuid", ["binary"; "binary_le"; "compact"], ["sync"],
+     [SLet "u" (EGetSlice 16)],
+     Some (EVar "u"));
+  ("read", "read_i8", ["binary"; "binary_le"; "compact"], ["sync"],
+     [],
+     Some (EGet "i8"));
+  ("read", "read_i16", ["binary"], ["sync"],
+     [],
+     Some (EGet "i16"));
+  ("read", "read_i32", ["binary"], ["sync"],
+     [],
+     Some (EGet "i32"));
+  ("read", "read_i64", ["binary"], ["sync"],
+     [],
+     Some (EGet "i64"));
+  ("read", "read_double", ["binary"], ["sync"],
+     [],
+     Some (EGet "f64"));
+  ("read", "read_string", ["binary"], ["sync"],
+     [SLet "len" (EGet "i32")],
+     Some (ESplit "read_to_string" (ECast "usize" (EVar "len"))));
+  ("read", "read_faststr", ["binary"], ["sync"],
+     [SLet "len" (ECast "usize" (EGet "i32")); SLet "bytes" (ESplit "split_to_checked" (EVar "len"))],
+     Some (EVar "bytes"));
+  ("read", "read_list_begin", ["binary"; "binary_le"], ["sync"],
+     [SLet "element_type" (ETryTType (ERead "read_byte")); SLet "size" (ERead "read_i32")],
+     Some (ETuple [EVar "element_type"; ECheckSize (EVar "size")]));
+  ("read", "read_list_end", ["binary"; "binary_le"; "compact"], ["sync"],
+     [],
+     None);
+  ("read", "read_set_begin", ["binary"; "binary_le"], ["sync"],
+     [SLet "element_type" (ETryTType (ERead "read_byte")); SLet "size" (ERead "read_i32")],
+     Some (ETuple [EVar "element_type"; ECheckSize (EVar "size")]));
+  ("read", "read_set_end", ["binary"; "binary_le"; "compact"], ["sync"],
+     [],
+     None);
+  ("read", "read_map_begin", ["binary"; "binary_le"], ["sync"],
+     [SLet "key_type" (ETryTType (ERead "read_byte")); SLet "value_type" (ETryTType (ERead "read_byte")); SLet "size" (ERead "read_i32")],
+     Some (ETuple [EVar "key_type"; EVar "value_type"; ECheckSize (EVar "size")]));
+  ("read", "read_map_end", ["binary"; "binary_le"; "compact"], ["sync"],
+     [],
+     None);
+  ("read", "read_byte", ["binary"; "binary_le"; "compact"], ["sync"],
+     [],
+     Some (EGet "u8"));
+  ("read", "read_bytes_vec", ["binary"], ["sync"],
+     [SLet "len" (ECast "usize" (EGet "i32"))],
+     Some (ESplit "split_to_checked" (EVar "len")));
+  ("read", "read_message_end", ["binary"; "binary_le"; "compact"], ["async"],
+     [],
+     None);
+  ("read", "read_struct_begin", ["binary"; "binary_le"], ["async"],
+     [],
+     Some (EK 0));
+  ("read", "read_struct_end", ["binary"; "binary_le"], ["async"],
+     [],
+     None);
+  ("read", "read_field_begin", ["binary"; "binary_le"], ["async"],
+     [SLet "field_type_byte" (ERead "read_byte"); SLet "field_type" (ETryTType (EVar "field_type_byte")); SLet "id" (EIfE (EBin "==" (EVar "field_type") (ENamed "TType::Stop")) (EK 0) (ERead "read_i16"))],
+     Some (ETuple [EVar "field_type"; EVar "id"]));
+  ("read", "read_field_end", ["binary"; "binary_le"; "compact"], ["async"],
+     [],
+     None);
+  ("read", "read_bool", ["binary"; "binary_le"], ["async"],
+     [SLet "b" (ERead "read_i8")],
+     Some (EIfE (EBin "==" (EVar "b") (EK 0)) (EK 0) (EK 1)));
+  ("read", "read_bytes", ["binary"; "binary_le"; "compact"], ["async"],
+     [],
+     Some (ERead "read_bytes_vec"));
+  ("read", "read_bytes_vec", ["binary"], ["async"],
+     [SLet "len" (EGet "i32"); SIf (EBin "<" (EVar "len") (EK 0)) [SFail "NegativeSize"] []],
+     Some (ESplit "read_exact_to_vec" (ECast "usize" (EVar "len"))));
+  ("read", "read_uuid", ["binary"; "binary_le"; "compact"], ["async"],
+     [SLet "uuid" (EGetSlice 16)],
+     Some (EVar "uuid"));
+  ("read", "read_string", ["binary"; "binary_le"; "compact"], ["async"],
+     [SLet "v" (ERead "read_bytes_vec")],
+     Some (EVar "v"));
+  ("read", "read_faststr", ["binary"; "binary_le"; "compact"], ["async"],
+     [],
+     Some (ERead "read_string"));
+  ("read", "read_byte", ["binary"; "binary_le"; "compact"], ["async"],
+     [],
+     Some (EGet "u8"));
+  ("read", "read_i8", ["binary"; "binary_le"; "compact"], ["async"],
+     [],
+     Some (EGet "i8"));
+  ("read", "read_i16", ["binary"], ["async"],
+     [],
+     Some (EGet "i16"));
+  ("read", "read_i32", ["binary"], ["async"],
+     [],
+     Some (EGet "i32"));
+  ("read", "read_i64", ["binary"], ["async"],
+     [],
+     Some (EGet "i64"));
+  ("read", "read_double", ["binary"], ["async"],
+     [],
+     Some (EGet "f64"));
+  ("read", "read_list_begin", ["binary"; "binary_le"], ["async"],
+     [SLet "element_type" (ETryTType (ERead "read_byte")); SLet "size" (ERead "read_i32")],
+     Some (ETuple [EVar "element_type"; ECast "usize" (EVar "size")]));
+  ("read", "read_list_end", ["binary"; "binary_le"; "compact"], ["async"],
+     [],
+     None);
+  ("read", "read_set_begin", ["binary"; "binary_le"], ["async"],
+     [SLet "element_type" (ETryTType (ERead "read_byte")); SLet "size" (ERead "read_i32")],
+     Some (ETuple [EVar "element_type"; ECast "usize" (EVar "size")]));
+  ("read", "read_set_end", ["binary"; "binary_le"; "compact"], ["async"],
+     [],
+     None);
+  ("read", "read_map_begin", ["binary"; "binary_le"], ["async"],
+     [SLet "key_type" (ETryTType (ERead "read_byte")); SLet "value_type" (ETryTType (ERead "read_byte")); SLet "size" (ERead "read_i32")],
+     Some (ETuple [EVar "key_type"; EVar "value_type"; ECast "usize" (EVar "size")]));
+  ("read", "read_map_end", ["binary"; "binary_le"; "compact"], ["async"],
+     [],
+     None);
+  ("read", "read_bytes", ["binary_le"], ["sync"],
+     [SLet "len" (EGet "i32_le")],
+     Some (ESplit "split_to_checked" (ECast "usize" (EVar "len"))));
+  ("read", "read_i16", ["binary_le"], ["sync"],
+     [],
+     Some (EGet "i16_le"));
+  ("read", "read_i32", ["binary_le"], ["sync"],
+     [],
+     Some (EGet "i32_le"));
+  ("read", "read_i64", ["binary_le"], ["sync"],
+     [],
+     Some (EGet "i64_le"));
+  ("read", "read_double", ["binary_le"; "compact"], ["sync"],
+     [],
+     Some (EGet "f64_le"));
+  ("read", "read_string", ["binary_le"], ["sync"],
+     [SLet "len" (EGet "i32_le")],
+     Some (ESplit "read_to_string" (ECast "usize" (EVar "len"))));
+  ("read", "read_faststr", ["binary_le"], ["sync"],
+     [SLet "len" (ECast "usize" (EGet "i32_le")); SLet "bytes" (ESplit "split_to_checked" (EVar "len"))],
+     Some (EVar "bytes"));
+  ("read", "read_bytes_vec", ["binary_le"], ["sync"],
+     [SLet "len" (ECast "usize" (EGet "i32_le"))],
+     Some (ESplit "split_to_checked" (EVar "len")));
+  ("read", "read_bytes_vec", ["binary_le"], ["async"],
+     [SLet "len" (EGet "i32_le"); SIf (EBin "<" (EVar "len") (EK 0)) [SFail "NegativeSize"] []],
+     Some (ESplit "read_exact_to_vec" (ECast "usize" (EVar "len"))));
+  ("read", "read_i16", ["binary_le"], ["async"],
+     [],
+     Some (EGet "i16_le"));
+  ("read", "read_i32", ["binary_le"], ["async"],
+     [],
+     Some (EGet "i32_le"));
+  ("read", "read_i64", ["binary_le"], ["async"],
+     [],
+     Some (EGet "i64_le"));
+  ("read", "read_double", ["binary_le"; "compact"], ["async"],
+     [],
+     Some (EGet "f64_le"));
+  ("read", "read_bytes", ["compact"], ["sync"],
+     [SLet "size" (EVarintR "u32")],
+     Some (ESplit "split_to_checked" (ECast "usize" (EVar "size"))));
+  ("read", "read_string", ["compact"], ["sync"],
+     [SLet "size" (ECast "usize" (EVarintR "u32"))],
+     Some (ESplit "read_to_string" (EVar "size")));
+  ("read", "read_faststr", ["compact"], ["sync"],
+     [SLet "size" (ECast "usize" (EVarintR "u32")); SLet "bytes" (ESplit "split_to_checked" (EVar "size"))],
+     Some (EVar "bytes"));
+  ("read", "read_i16", ["compact"], ["sync"],
+     [],
+     Some (EVarintR "i16"));
+  ("read", "read_i32", ["compact"], ["sync"],
+     [],
+     Some (EVarintR "i32"));
+  ("read", "read_i64", ["compact"], ["sync"],
+     [],
+     Some (EVarintR "i64"));
+  ("read", "read_list_begin", ["compact"], ["sync"],
+     [SLet2 "element_type" "element_count" (ERead "read_collection_begin")],
+     Some (ETuple [EVar "element_type"; EVar "element_count"]));
+  ("read", "read_set_begin", ["compact"], ["sync"],
+     [SLet2 "element_type" "element_count" (ERead "read_collection_begin")],
+     Some (ETuple [EVar "element_type"; EVar "element_count"]));
+  ("read", "read_bytes_vec", ["compact"], ["sync"],
+     [SLet "size" (ECast "usize" (EVarintR "u32"))],
+     Some (ESplit "split_to_checked" (EVar "size")));
+  ("read", "read_bytes_vec", ["compact"], ["async"],
+     [SLet "size" (ECast "usize" (EVarintR "u32"))],
+     Some (ESplit "read_exact_to_vec" (EVar "size")));
+  ("read", "read_i16", ["compact"], ["async"],
+     [],
+     Some (EVarintR "i16"));
+  ("read", "read_i32", ["compact"], ["async"],
+     [],
+     Some (EVarintR "i32"));
+  ("read", "read_i64", ["compact"], ["async"],
+     [],
+     Some (EVarintR "i64"));
+  ("read", "read_list_begin", ["compact"], ["async"],
+     [SLet2 "element_type" "element_count" (ERead "read_collection_begin")],
+     Some (ETuple [EVar "element_type"; EVar "element_count"]));
+  ("read", "read_set_begin", ["compact"], ["async"],
+     [SLet2 "element_type" "element_count" (ERead "read_collection_begin")],
+     Some (ETuple [EVar "element_type"; EVar "element_count"]))
   ].
